@@ -186,7 +186,7 @@ class C15Monitor(jobsim.Monitor):
         r = _newton_mod.fun_items(items, fk.field)
         f_live = -np.asarray(it["b"])
         if np.all(np.isfinite(f_live)):
-            scale = max(float(np.abs(r).max()), float(abs(it["K"]).max()) * (float(np.abs(np.concatenate([v.ravel() for v in it["x"]])).max()) + 1e-30))
+            scale = max(float(np.abs(r).max()), float(abs(it["K"]).max()) * (float(np.abs(np.concatenate([v.ravel() for v in it["x"]])).max()) + 1e-4))
             ok, rel = close_exact_twin(r, f_live, atol=1e-11 * scale + 1e-300)
             if not ok:
                 self.V("ramp-order", f"substep ({j},{i}): the residual Newton starts from is not the one of the {i}-th ramp values (rel {rel:.2e})", site="Step.generate.items")
